@@ -94,6 +94,17 @@ def tagsDistinct : List String → Bool
   | [] => true
   | t :: ts => (t == "" || !ts.contains t) && tagsDistinct ts
 
+/-- no key occurs twice -/
+def keysDistinct : List String → Bool
+  | [] => true
+  | k :: ks => !ks.contains k && keysDistinct ks
+
+/-- `structTagIndices` keeps, of several fields with one tag, the last: the tags with every
+earlier duplicate blanked (such a field is as good as untagged) -/
+def effTags : List String → List String
+  | [] => []
+  | t :: ts => (if t != "" && ts.contains t then "" else t) :: effTags ts
+
 /-- insertion into a strictly ascending list of names -/
 def insertName (k : String) : List String → List String
   | [] => [k]
@@ -155,6 +166,23 @@ def taggedNames : List String → List String
   | [] => []
   | t :: ts => if t = "" then taggedNames ts else t :: taggedNames ts
 
+/-- `impliedStructType` once the field types are known: `etags` are the effective tags,
+`rs` one result per tagged field.  `cty.Object` normalises the attribute names; two tags
+with one normal form collide there and Go's map order picks the survivor (`unmodelled`). -/
+def impliedStruct (norm : String → String) (etags : List String) (rs : List (Res Ty)) : Res Ty :=
+  let ks := taggedNames etags
+  if ks.isEmpty then .err "no cty field tags"
+  else if !keysDistinct (ks.map norm) then .unmodelled
+  else
+    match combAll rs with
+    | .ok ts =>
+      let nks := ks.map norm
+      let names := sortNames nks
+      .ok (.object names (names.map fun k => (lookupKey k nks ts).getD .dyn) (names.map fun _ => false))
+    | .err c => .err c
+    | .panic w => .panic w
+    | .unmodelled => .unmodelled
+
 mutual
 /-- `impliedType`.  With `ext = true` arrays and big numbers are mapped to the
 "corresponding list and number types" the property speaks of (`ImpliedType`
@@ -183,18 +211,7 @@ def impliedG (norm : String → String) (ext : Bool) : GoTy → Res Ty
   | .bigFloat => if ext then .ok .number else .err "no cty field tags"
   | .cval => .ok .dyn
   | .struct tags tys =>
-    -- impliedStructType
-    let ks := taggedNames tags
-    if ks.isEmpty then .err "no cty field tags"
-    else if !tagsDistinct tags || ks.map norm != ks then .unmodelled
-    else
-      match combAll (impliedFields norm ext tags tys) with
-      | .ok ts =>
-        let names := sortNames ks
-        .ok (.object names (names.map fun k => (lookupKey k ks ts).getD .dyn) (names.map fun _ => false))
-      | .err c => .err c
-      | .panic w => .panic w
-      | .unmodelled => .unmodelled
+    impliedStruct norm (effTags tags) (impliedFields norm ext (effTags tags) tys)
 /-- one result per *tagged* field, in declaration order -/
 def impliedFields (norm : String → String) (ext : Bool) : List String → List GoTy → List (Res Ty)
   | t :: tags, T :: tys =>
@@ -227,6 +244,12 @@ def tysOf : List Value → List Ty
   | [] => []
   | v :: vs => v.ty :: tysOf vs
 
+/-- `cty.CanListVal` / `CanMapVal`: the element-type loop would not panic -/
+def canListVal (ws : List Value) : Bool :=
+  match elemTypeOf .dyn ws with
+  | .panic _ => false
+  | _ => true
+
 def listVal (ws : List Value) : Res Value :=
   if ws.isEmpty then .panic "must not call ListVal with empty slice"
   else
@@ -245,11 +268,6 @@ def mapVal (ks : List String) (ws : List Value) : Res Value :=
     | .err c => .err c
     | .panic w => .panic w
     | .unmodelled => .unmodelled
-
-/-- no key occurs twice -/
-def keysDistinct : List String → Bool
-  | [] => true
-  | k :: ks => !ks.contains k && keysDistinct ks
 
 /-- insertion of a key/value pair into parallel lists sorted by key -/
 def insertKV (k : String) (w : Value) : List String → List Value → List String × List Value
@@ -368,7 +386,7 @@ def toCtyG (norm : String → String) (pass : Bool) : GoVal → Ty → Res Value
        if vs.isEmpty then .ok ⟨.list ety, .seq []⟩
        else
          (match seqAll (toCtyL norm vs ety) with
-          | .ok ws => listVal ws
+          | .ok ws => if !canListVal ws then .err "all list elements must have the same type" else listVal ws
           | .err c => .err c
           | .panic w => .panic w
           | .unmodelled => .unmodelled)
@@ -389,7 +407,7 @@ def toCtyG (norm : String → String) (pass : Bool) : GoVal → Ty → Res Value
        if vs.isEmpty then .ok ⟨.list ety, .seq []⟩
        else
          (match seqAll (toCtyL norm vs ety) with
-          | .ok ws => listVal ws
+          | .ok ws => if !canListVal ws then .err "all list elements must have the same type" else listVal ws
           | .err c => .err c
           | .panic w => .panic w
           | .unmodelled => .unmodelled)
@@ -408,7 +426,8 @@ def toCtyG (norm : String → String) (pass : Bool) : GoVal → Ty → Res Value
        else
          (match combAll (toCtyL norm vs ety) with
           | .ok ws =>
-            if ks.map norm != ks then
+            if !canListVal ws then .err "all map elements must have the same type"
+            else if ks.map norm != ks then
               -- `cty.MapVal` normalises the keys; two Go keys with one normal form: Go map order decides
               (if !keysDistinct (ks.map norm) then .unmodelled
                else mapVal (sortKV (ks.map norm) ws).1 (sortKV (ks.map norm) ws).2)
@@ -430,9 +449,9 @@ def toCtyG (norm : String → String) (pass : Bool) : GoVal → Ty → Res Value
     (match ty with
      | .object names atys _ =>
        if names.isEmpty then .ok (objectVal [] [])
-       else if !tagsDistinct tags then .unmodelled
        else
-         (match combAll (attrResults names atys (taggedNames tags) (toCtyF norm tags vs names atys)) with
+         (match combAll (attrResults names atys (taggedNames (effTags tags))
+             (toCtyF norm (effTags tags) vs names atys)) with
           | .ok ws => .ok (objectVal names ws)
           | .err c => .err c
           | .panic w => .panic w
@@ -757,11 +776,10 @@ def fromCtyP (ms : List String) (ty : Ty) (p : Payload) (T : GoTy) : Res GoVal :
          else
            (match T.base with
             | .struct tags tys =>
-              if !tagsDistinct tags then .unmodelled
-              else if missingRequired names tags tys then .err "missing required attribute"
+              if missingRequired names (effTags tags) tys then .err "missing required attribute"
               else
-                mapRes (fun gs => wrapPtr T.depth (.struct tags (assemble names gs tags tys)))
-                  (combAll (fromCtyA ms names atys cs tags tys))
+                mapRes (fun gs => wrapPtr T.depth (.struct tags (assemble names gs (effTags tags) tys)))
+                  (combAll (fromCtyA ms names atys cs (effTags tags) tys))
             | .bigInt =>
               if names.isEmpty then .ok (wrapPtr T.depth (zeroVal .bigInt)) else .err "unsupported attribute"
             | .bigFloat =>
